@@ -544,7 +544,9 @@ pub fn gen_clean_world(rng: &mut Rng, family_rate_pct: u64) -> CleanWorld {
     for _e in 0..n_ecus {
         let nboots = rng.weighted(&[15, 30, 25, 15, 10, 5]) + 1;
         let mut boots: Vec<CleanBoot> = vec![];
-        let mut wall = WALL_BASE_US + rng.below(100_000_000);
+        // now and then a recorder without a clock: the recording starts at the epoch (cf. tests/ex_1970_1_1.dlt),
+        // so that boot time + delay can be 0 and a timestamp can equal its reception time
+        let mut wall = if rng.chance(1, 12) { *rng.pick(&[0u64, 0, 1, 100, 5_000_000]) } else { WALL_BASE_US + rng.below(100_000_000) };
         for _b in 0..nboots {
             let nm = match rng.below(4) {
                 0 => rng.urange(1, 2),
